@@ -150,10 +150,15 @@ Section C01_block.
 
   Theorem C01_controller_schedule_in_bounds : forall nsw jacobi, Forall (op_in_bounds L) (pfasst_iteration P L nsw jacobi).
   Proof. exact (pfasst_iteration_in_bounds L P). Qed.
+  (* the predictors (fine_only, pfasst_burnin) are schedules of the same operations, tied to controller_nonMPI.predict by exact
+     correspondence; so is any concatenation predictor ++ iteration ++ iteration ... *)
+  Theorem C01_predictor_schedule_in_bounds : forall pt, Forall (op_in_bounds L) (predict_ops P L pt).
+  Proof. exact (predict_ops_in_bounds L P). Qed.
 End C01_block.
 Print Assumptions C01_block_fixed_point_any_schedule.
 Print Assumptions C01_controller_iteration_fixed_point.
 Print Assumptions C01_controller_schedule_in_bounds.
+Print Assumptions C01_predictor_schedule_in_bounds.
 
 (* Non-vacuity: a concrete block (2 steps, 2 levels, Qc) meets every hypothesis, all entries stay valid under the controller's
    schedule, and the theorem returns both steps unchanged *)
